@@ -1005,10 +1005,26 @@ func init() {
 			return math.Float64bits(a[0].(float64))
 		},
 		// --- rand: nondeterministic stub with contract ---
+		// A *rand.Rand built from rand.NewSource(seed) is a pure function of the seed and
+		// the number of calls made on it so far: the k-th result is the uninterpreted
+		// function uf_rand(seed, k, n), constrained to the documented range. Two runs
+		// from the same seed therefore build identical terms; the package-level functions
+		// (global source) below stay fresh, unconstrained values.
 		"math/rand.NewSource": func(fr *frame, a []value) value {
-			return iface{t: fr.i.stdType("math/rand", "rngSource", true), v: &opaque{"rand.Source"}}
+			st := value(&randState{seed: toI(a[0], types.Int64)})
+			return iface{t: fr.i.stdType("math/rand", "rngSource", true), v: st}
 		},
-		"math/rand.New": func(fr *frame, a []value) value { return &opaquePtr },
+		"math/rand.New": func(fr *frame, a []value) value {
+			var st *randState
+			if it, ok := a[0].(iface); ok {
+				st, _ = it.v.(*randState)
+			}
+			if st == nil {
+				st = &randState{seed: fr.i.ex.freshVar("randseed", bvsort(64))}
+			}
+			v := value(st)
+			return &v
+		},
 		"(*math/rand.Rand).Int31n": func(fr *frame, a []value) value {
 			e := fr.i.ex
 			e.reach("stub:rand.Int31n")
@@ -1016,14 +1032,36 @@ func init() {
 			if e.decide("(bvsle "+nt+" "+bvlit(0, 32)+")", "Int31n contract") {
 				panic(targetPanic{iface{fr.i.runtimeErrorString, "invalid argument to Int31n"}})
 			}
-			r := e.freshVar("rand31", bvsort(32))
+			var r string
+			if st := randStateOf(a[0]); st != nil {
+				decl := "(declare-fun uf_rand31 (" + bvsort(64) + " " + bvsort(32) + " " + bvsort(32) + ") " + bvsort(32) + ")"
+				e.sol.declareRaw("uf_rand31", decl)
+				if e.crs != nil {
+					e.crs.declareRaw("uf_rand31", decl)
+				}
+				r = e.abbrev("(uf_rand31 "+st.seed+" "+bvlit(uint64(st.n), 32)+" "+nt+")", bvsort(32))
+				st.n++
+			} else {
+				r = e.freshVar("rand31", bvsort(32))
+			}
 			e.addPC("(and (bvsle " + bvlit(0, 32) + " " + r + ") (bvslt " + r + " " + nt + "))")
 			return symI{r, types.Int32}
 		},
 		"(*math/rand.Rand).Float64": func(fr *frame, a []value) value {
 			e := fr.i.ex
 			e.reach("stub:rand.Float64")
-			r := e.freshVar("randf", f64)
+			var r string
+			if st := randStateOf(a[0]); st != nil {
+				decl := "(declare-fun uf_randf (" + bvsort(64) + " " + bvsort(32) + ") " + f64 + ")"
+				e.sol.declareRaw("uf_randf", decl)
+				if e.crs != nil {
+					e.crs.declareRaw("uf_randf", decl)
+				}
+				r = e.abbrev("(uf_randf "+st.seed+" "+bvlit(uint64(st.n), 32)+")", f64)
+				st.n++
+			} else {
+				r = e.freshVar("randf", f64)
+			}
 			e.addPC("(and (fp.leq " + fplit(0) + " " + r + ") (fp.lt " + r + " " + fplit(1) + "))")
 			return symF{r}
 		},
@@ -1147,6 +1185,20 @@ func init() {
 }
 
 type opaque struct{ what string }
+
+// randState: a seeded random source; n counts the calls made on it.
+type randState struct {
+	seed string
+	n    int
+}
+
+func randStateOf(v value) *randState {
+	if p, ok := v.(*value); ok && p != nil {
+		st, _ := (*p).(*randState)
+		return st
+	}
+	return nil
+}
 
 var opaquePtr value = structure{}
 
